@@ -17,9 +17,13 @@ MANIFEST = {
             'derangement_no_fixed_point (Permutation and y[i] <> x[i] everywhere), sample_pop_subselection, choice_member, '
             'choices_cum_member/choices_weights_member (weighted choices return members, nonnegative integer weights), '
             'randrange_lattice/within, getrandbits_range (= random as scaled integer), uniform_within (a <= N <= b for a <= b incl. '
-            'a = b, N < b when a < b) and uniform_within_rev. Uniformity by counting: randbelow_one_pass_bounded_partial (n <= 64, '
-            'bound in the statement: a k-bit one-pass tape is accepted iff it encodes v < n and returns v; one accepting tape per '
-            'value) and rejection_ignores_retained_bits (all n: the bits kept on restart are not inspected by the rejecting pass). '
+            'a = b, N < b when a < b) and uniform_within_rev. Uniformity by counting tapes, for EVERY n >= 1 (k = (n-1).bit_length()): '
+            'randbelow_one_pass (a k-bit one-pass tape is accepted iff its value < n, output = value), bits_value_bijection, '
+            'randbelow_uniform_one_pass (exists! accepting one-pass tape per v < n), randbelow_one_pass_accepts, '
+            'randbelow_pass_step (any pass, any tape: accept iff value < n, else reject at j, keep x[:j], draw k-j bits, same state '
+            'form), randbelow_next_pass / randbelow_uniform_next_pass (conditional on a rejection at j, exists! (retained ++ fresh) '
+            'string per v < n accepted by the next pass: uniform at every pass), randbelow_two_pass, '
+            'rejection_ignores_retained_bits, getrandbits_uniform, randrange_uniform_one_pass. '
             'Model tied to the code on every run by exhaustive tape-tree enumeration through the real functions with the bit source '
             'substituted from outside (n<=12 randbelow/unit vectors, n<=4 shuffles/derangements, populations<=4; secint, secfxp, '
             'secfld), exact comparison of values and consumed bits, and exact weighted histogram counting (flat / proportional to '
@@ -27,8 +31,8 @@ MANIFEST = {
     'note': 'Trusted: Coq kernel + vm_compute; the hand-written model (value level: secure numbers are their integer values; '
             'runtime.in_prod/scalar_mul/vector_add/vector_sub/prod/from_bits modelled as exact integer arithmetic; single party, '
             'no_async); random_bits is a tape oracle, its own uniformity is C01/C15 not this check. MISSING as theorems (covered only '
-            'by the exact counting on implementation+model for small n): unbounded randbelow one-pass kernel and randbelow_uniform '
-            'over r restarts, unit-vector uniformity, shuffle_uniform, derangement_uniform, choices weight proportions, sample_range '
+            'by the exact counting on implementation+model for small n): a closed-form count over whole r-restart histories (the per-pass '
+            'uniformity theorems above are its induction step), unit-vector uniformity, shuffle_uniform, derangement_uniform, choices weight proportions, sample_range '
             'distinctness, lists-of-lists shuffle permutation (model corresponded, not proved). np_random_unit_vector not modelled '
             '(no NumPy here). Weighted choices are not applicable to secure fields (field elements have no <; TypeError unrelated '
             'to any defect). _randbelow(st,1) returns the public int 0, so randrange/uniform over a one-point range return public '
